@@ -144,7 +144,13 @@ func genXProps(c *Ctx) []xprop {
 	for _, i := range c.Rng.Perm(len(arrays))[:c.Rng.Intn(3)] {
 		p := arrays[i]()
 		for k := 0; k < 1+c.Rng.Intn(4); k++ {
-			p.items = append(p.items, str())
+			// a quarter of the items repeat an earlier item byte for byte (a Bag may list a keyword twice; arrays report
+			// their items in document order, repeated ones included)
+			if len(p.items) > 0 && c.Rng.Intn(4) == 0 {
+				p.items = append(p.items, p.items[c.Rng.Intn(len(p.items))])
+			} else {
+				p.items = append(p.items, str())
+			}
 		}
 		out = append(out, p)
 	}
